@@ -29,6 +29,8 @@ type pMsg struct {
 	Args []string `json:"args"`
 	Body []byte   `json:"body"`
 	Raw  string   `json:"raw,omitempty"` // for Cmd "broken" / "eof-inside": bytes sent verbatim
+	// Helper: before sending this message the plugin starts a child process that outlives it
+	Helper bool `json:"helper,omitempty"`
 }
 
 type c16Case struct {
@@ -256,6 +258,7 @@ func c16Check(c c16Case, st *stats.Run) error {
 		default:
 			script.Steps = append(script.Steps, hx.PlugStep{Raw: m.raw()})
 		}
+		script.Steps[len(script.Steps)-1].Helper = m.Helper
 	}
 	bin := filepath.Join(dir, "bin")
 	if err := hx.InstallPlugin(dir, bin, "sim", script); err != nil {
@@ -478,6 +481,7 @@ func c16Alphabet() []pMsg {
 		{Cmd: "confirm", Args: []string{refage.B64([]byte("yes")), refage.B64([]byte("no"))}, Body: []byte("sure?")},
 		{Cmd: "confirm", Body: []byte("sure?")},
 		{Cmd: "future-cmd", Args: []string{"x"}, Body: []byte("?")},
+		{Cmd: "request-pin", Body: []byte("pin?")},
 		{Cmd: "done"},
 		{Cmd: "eof"},
 		{Cmd: "broken", Raw: "-> file-key 0\n****\n"},
@@ -532,7 +536,7 @@ func c16GenMsg(t *rapid.T) pMsg {
 		args := rapid.SampledFrom([][]string{{y, n}, {y}, nil, {y, n, y}, {"***"}, {y, "="}}).Draw(t, "cargs")
 		return pMsg{Cmd: "confirm", Args: args, Body: []byte("really?")}
 	case "unknown":
-		return pMsg{Cmd: rapid.SampledFrom([]string{"grease-abc", "future-cmd", "ok", "fail", "unsupported", "add-identity", "wrap-file-key"}).Draw(t, "ucmd"), Args: []string{"a"}, Body: b}
+		return pMsg{Cmd: rapid.SampledFrom([]string{"grease-abc", "future-cmd", "ok", "fail", "unsupported", "add-identity", "wrap-file-key", "request-pin", "request-secret-v2", "request-", "msg2", "msg-", "confirm2", "error-", "errors", "labels2", "file-key2", "file-keys", "recipient-stanza2", "done2", "done-", "Msg", "DONE"}).Draw(t, "ucmd"), Args: []string{"a"}, Body: b}
 	case "done":
 		return pMsg{Cmd: "done"}
 	case "eof":
@@ -584,6 +588,18 @@ func TestC16(t *testing.T) {
 		s.St.Exhaust(fmt.Sprintf("all plugin conversations of <=%d messages over a %d-message alphabet x {recipient, identity} machine x {no callbacks, failing callbacks, answering callbacks} (this shard's share)", L, len(al)), int64(n))
 	}, check)
 
+	// a plugin that stops mid-conversation while a helper it started lives on
+	pbt.Each(s, "conversations-exhaustive", func(yield func(c16Case)) {
+		if s.Shard != 0 {
+			return
+		}
+		al := c16Alphabet()
+		for _, machine := range []string{"recipient", "identity"} {
+			yield(c16Case{Machine: machine, Msgs: []pMsg{{Cmd: "eof", Helper: true}}, NStanzas: 1})
+			yield(c16Case{Machine: machine, Msgs: []pMsg{al[0], {Cmd: "eof", Helper: true}}, NStanzas: 1})
+		}
+		s.St.Exhaust("plugin exits mid-conversation leaving a helper process that holds its stderr", 4)
+	}, check)
 	pbt.Rapid(s, "conversations", s.N(800, 6000), func(t *rapid.T) c16Case {
 		c := c16Case{Machine: rapid.SampledFrom([]string{"recipient", "identity", "identity", "identity-as-recipient"}).Draw(t, "machine")}
 		n := rapid.IntRange(0, 8).Draw(t, "nmsgs")
